@@ -98,6 +98,13 @@ class Kernel:
                 return "(xorb %s %s)" % tuple(args)
             if f == "logical_not" and len(args) == 1:
                 return "(negb %s)" % args[0]
+        # operator spellings of the same functions on boolean arrays (the tableau is a bool array: checked by the constructor probes and the
+        # correspondence; on integer arrays `~` would differ from logical_not)
+        if isinstance(node, ast.BinOp) and isinstance(node.op, (ast.BitAnd, ast.BitOr, ast.BitXor)):
+            f = {ast.BitAnd: "andb", ast.BitOr: "orb", ast.BitXor: "xorb"}[type(node.op)]
+            return "(%s %s %s)" % (f, self.bexpr(node.left), self.bexpr(node.right))
+        if isinstance(node, ast.UnaryOp) and isinstance(node.op, ast.Invert):
+            return "(negb %s)" % self.bexpr(node.operand)
         fail(node, "unsupported boolean expression: " + ast.dump(node))
 
     # ---- statements ----------------------------------------------------------------------------
@@ -157,9 +164,11 @@ class Kernel:
                     return
                 # masked flip
                 if isinstance(a, ast.Name):
-                    if not (isinstance(val, ast.Call) and isinstance(val.func, ast.Attribute)
-                            and val.func.attr == "logical_not" and len(val.args) == 1
-                            and ast.dump(val.args[0]) == ast.dump(ast.Subscript(value=tgt.value, slice=tgt.slice, ctx=ast.Load()))):
+                    same = ast.dump(ast.Subscript(value=tgt.value, slice=tgt.slice, ctx=ast.Load()))
+                    is_not_call = (isinstance(val, ast.Call) and isinstance(val.func, ast.Attribute)
+                                   and val.func.attr == "logical_not" and len(val.args) == 1 and ast.dump(val.args[0]) == same)
+                    is_invert = isinstance(val, ast.UnaryOp) and isinstance(val.op, ast.Invert) and ast.dump(val.operand) == same
+                    if not (is_not_call or is_invert):
                         fail(st, "masked store that is not g[m, c] = logical_not(g[m, c])")
                     m = self.bexpr(a)
                     c = self.col(b)
